@@ -896,7 +896,8 @@ def printJson (s : StateModel) : Outcome Json :=
   * every documented field may be absent or `null`; a present, non-null documented field must
     have the documented type; fields the document does not mention are allowed (and reported
     by `undocumented`);
-  * `<u32>`: a non-negative integer token below 2^32; `<f32>`: any number token;
+  * `<u32>`/`<u64>`: a non-negative integer token below 2^32 / 2^64 (`<u64>` is used by the
+    document for `handles[].handle` only, since /repo b67afac); `<f32>`: any number token;
   * `<hexstring>` for addresses/offsets (`hexA`): `0x` + lower-case hex digits, at least the
     platform's pointer width (8 digits on 32-bit CPUs, 16 otherwise), value below 2^64;
     `<hexstring>` that is not an address (`hexN`: microcode version, registers — "formatted
@@ -908,7 +909,7 @@ def printJson (s : StateModel) : Outcome Json :=
 -/
 
 inductive Ty where
-  | u32 | f32 | bool | str
+  | u32 | u64 | f32 | bool | str
   | hexA            -- address-like hex string, padded to the platform width
   | hexN            -- other hex string
   | enum (vals : List String) (orHex : Bool)
@@ -976,7 +977,7 @@ def schema : Ty := .obj [
   ("unloaded_modules", .arr (.obj [
     ("base_addr", .hexA), ("end_addr", .hexA), ("code_id", .str), ("filename", .str),
     ("cert_subject", .str)])),
-  ("handles", .arr (.obj [("handle", .u32), ("type_name", .str), ("object_name", .str)])),
+  ("handles", .arr (.obj [("handle", .u64), ("type_name", .str), ("object_name", .str)])),
   ("lsb_release", .obj [("id", .str), ("release", .str), ("codename", .str), ("description", .str)]),
   ("mac_crash_info", .obj [
     ("num_records", .u32),
@@ -993,6 +994,7 @@ def isHexString (w : Nat) (s : String) : Bool :=
   | _ => false
 
 def isU32 (n : JNum) : Bool := !n.neg && n.frac.isEmpty && n.exp.isNone && n.int ≤ U32MAX
+def isU64 (n : JNum) : Bool := !n.neg && n.frac.isEmpty && n.exp.isNone && n.int ≤ U64MAX
 
 def hexStringValue (j : Json) : Nat :=
   match j with
@@ -1023,6 +1025,7 @@ def check (w : Nat) : Ty → Json → String → Option String
   | _, .null, _ => none
   | .any, _, _ => none
   | .u32, .num n, p => if isU32 n then none else some p
+  | .u64, .num n, p => if isU64 n then none else some p
   | .f32, .num _, _ => none
   | .bool, .bool _, _ => none
   | .str, .str _, _ => none
